@@ -8,6 +8,7 @@ use proc_macro2::{TokenStream, TokenTree};
 use quote::ToTokens;
 use std::fmt::Write as _;
 use syn::visit::Visit;
+mod ast;
 
 fn count_unsafe(ts: TokenStream) -> usize {
     let mut n = 0;
@@ -320,8 +321,14 @@ fn main() {
             eprintln!("rs2v: {}", e);
             std::process::exit(2);
         }
+    } else if a.len() >= 4 && a[1] == "ast" {
+        // rs2v ast <out.json> <file.rs>...
+        if let Err(e) = ast::dump(&a[3..].to_vec(), &a[2]) {
+            eprintln!("rs2v: {}", e);
+            std::process::exit(2);
+        }
     } else {
-        eprintln!("usage: rs2v facts <repo-root> <cargo-metadata.json> <out.v>");
+        eprintln!("usage: rs2v facts <repo-root> <cargo-metadata.json> <out.v> | rs2v ast <out.json> <file.rs>...");
         std::process::exit(2);
     }
 }
